@@ -25,7 +25,7 @@ RULE = ("781 real RF24Network nodes (every valid address of levels 0..4) on one 
         "class, role).")
 REQUIRED = {"listening_entries": 4000, "next_hop_origin": 1000, "next_hop_router": 1000,
             "multicast_level": 50, "path_composition": 500, "history_independent": 300,
-            "readdressed_like_fresh": 30}
+            "readdressed_like_fresh": 30, "inplace_isolated": 100}
 BUDGET = {"quick": 600, "thorough": 1500}
 EXHAUSTIVE = {"quick": "all 781x6 listening entries (default bytes, multicast on and off)",
               "thorough": "all 781x780 (source, destination) pairs in both roles with default bytes; all 781x6 listening entries for every byte set"}
@@ -55,6 +55,7 @@ class Network781:
     def __init__(self, prefix, suffix, multicast):
         m = repo()
         self.m = m
+        self.prefix, self.suffix = prefix, bytes(suffix)
         self.rig = Rig(seed=4, profile=W.Profile(spi_overhead=10000, spi_byte=400, pin=1000,
                                                  timecall=500, jitter=0.0))
         self.node = self.rig.node
@@ -84,7 +85,7 @@ class Network781:
                 if out.startswith("rx:") and name in self.byname:
                     r = self.radios[self.byname[name]]
                     r.rx_fifo.clear()
-                    r.flags = 0
+                    r.flags &= ~0x40  # only what the reception latched (a pending MAX_RT is the driver's business)
         del self.rig.air.log[:]
 
     def first_tx(self, src):
@@ -145,6 +146,7 @@ def run_shard(ctx):
             if ci < 2 or ctx.tier == "thorough":
                 history_checks(ctx, net, mine, rng, ci, mc)
                 readdress_checks(ctx, net, mine, rng, ci, mc)
+                inplace_checks(ctx, net, mine, rng, ci, mc)
         finally:
             net.close()
 
@@ -248,6 +250,15 @@ def one_hop(ctx, net, n, d, role, ci, tag=""):
     if len(rec) != 1:
         ctx.violation("hop-not-unique/" + role, "node %o -> %o: TX address %s accepted "
                       "by %r %s" % (n, d, pkt.addr.hex(), [("%o" % a, p) for a, p in rec], tag), case)
+        return None
+    h_air = net_ref.unpack_header(pkt.payload) if len(pkt.payload) >= 8 else None
+    if h_air is None or h_air["to"] != d:
+        ctx.violation("other-frame-on-air/" + role, "node %o as %s for destination %o: the first packet on air "
+                      "carries a frame for %s (to pipe address %s) %s"
+                      % (n, role, d, "%o" % h_air["to"] if h_air else "?", pkt.addr.hex(), tag), case,
+                      {"air": [(p.src.name, p.kind, p.addr.hex(), p.payload[:8].hex(), p.attempt,
+                                [o for o in p.outcomes if not o[1].startswith("miss")][:3]) for p in net.rig.air.log[:8]],
+                       "ret": repr(ret), "tx_fifo": len(net.radios[n].tx_fifo), "flags": net.radios[n].flags})
         return None
     got = rec[0][0]
     if got != want:
@@ -372,6 +383,24 @@ def history_checks(ctx, net, mine, rng, ci, mc):
                 tag.append("mc%r" % L)
                 if not one_multicast(ctx, net, n, L, ci, tag="after " + ",".join(tag[-4:-1])):
                     return
+            elif r < 0.45:
+                # the next hop does not answer (tuned away for a moment): the transmission fails for
+                # the whole tx_timeout; what the node sends NEXT must be its next frame, to the right pipe
+                d = rng.choice(pool)
+                hop = net_ref.next_hop(n, d)
+                rh = net.radios[hop]
+                ch = rh.r[5]
+                rh.r[5] = 99
+                net.clear_rx()
+                net.node.deadline = net.node.t + 4000 * W.MS
+                try:
+                    net.objs[n].send(net.m["structs"].RF24NetworkHeader(d, 0), b"lost")
+                finally:
+                    net.node.deadline = None
+                    rh.r[5] = ch
+                tag.append("fail>%o" % d)
+                ctx.count("failed_hops_in_histories")
+                continue
             else:
                 d = rng.choice(pool)
                 role = "origin" if r < 0.8 or lvl == 4 else "router"
@@ -381,6 +410,33 @@ def history_checks(ctx, net, mine, rng, ci, mc):
                     return
             ctx.clause("history_independent")
         ctx.nontrivial((ci, "hist", n))
+
+
+def inplace_checks(ctx, net, mine, rng, ci, mc):
+    """one node changes its address bytes IN PLACE (the attributes are mutable bytearrays): every
+    other node must go on translating with its own bytes"""
+    if len(mine) < 4:
+        return
+    x = rng.choice(mine)
+    ox = net.objs[x]
+    ox.address_suffix[1 + rng.randrange(5)] ^= 0x55
+    ox.address_prefix[0] ^= 0x0F
+    ctx.count("inplace_customisations")
+    try:
+        for n in rng.sample([a for a in mine if a != x], min(4, len(mine) - 1)):
+            net.objs[n].node_address = n  # a re-begin would pick foreign bytes up for the RX pipes too
+            for d in dest_sample(rng, n, 6):
+                if d == x or net_ref.next_hop(n, d) == x:
+                    continue
+                ctx.clause("inplace_isolated")
+                if one_hop(ctx, net, n, d, "origin", ci, tag="after node %o changed its address bytes in place" % x) is None:
+                    return
+            if mc and not one_multicast(ctx, net, n, None, ci, tag="after node %o changed its address bytes in place" % x):
+                return
+    finally:
+        ox.address_suffix[:] = net.suffix
+        ox.address_prefix[:] = bytes([net.prefix])
+        ox.node_address = x
 
 
 def readdress_checks(ctx, net, mine, rng, ci, mc):
